@@ -818,6 +818,23 @@ theorem subdir_selection_spec (p name : Bytes) :
   refine ⟨keepFor_iff p name, ?_⟩
   simp [isBelow]
 
+/--
+**Fix-point behind sqfs2tar's options.**  Whatever `--subdir` / `--keep-as-dir` / `--root-becomes` / `--no-hard-links` options
+sqfs2tar is given (without `--no-skip`): the bytes it writes — `sqfs2tarFull`, the function that is compared with the real tool's
+standard output on every run — are `sqfs2tar` applied to the entries that survive the selection, under their emitted names, with
+the hard links the filter finds *among them*; and whenever those entries form a tree (`FromImage`: parents emitted before their
+children — i.e. the new root is a single directory or absent —, no sockets), tar2sqfs on these bytes rebuilds exactly that tree:
+every emitted entry, nothing else, same order, link targets as emitted.
+-/
+theorem fixpoint_sqfs2tar_options (o : S2tOpts) (root : RootInfo) (raw : List RawEnt) (hs : o.dontSkip = false)
+    (h : FromImage (imgOfEnts (s2tEntries o root raw)) ((s2tEntries o root raw).map nodeOfEnt)) :
+    sqfs2tarFull o root raw = some (sqfs2tar (imgOfEnts (s2tEntries o root raw)) ((s2tEntries o root raw).map nodeOfEnt)) ∧
+    tar2sqfsTree {} (sqfs2tar (imgOfEnts (s2tEntries o root raw)) ((s2tEntries o root raw).map nodeOfEnt)) =
+      some ((s2tEntries o root raw).map nodeOfEnt,
+            devsOf (imgOfEnts (s2tEntries o root raw)) ((s2tEntries o root raw).map nodeOfEnt)) := by
+  refine ⟨?_, (fixpoint_tree_level _ _ h).1⟩
+  simp [sqfs2tarFull, hs]
+
 /-! ### layout facts the models rely on, re-checked against `include/tar/format.h` on every run
 (`Sqfs/Generated/Consts.lean` is regenerated from the working tree; a changed offset or width breaks this build) -/
 section layout
@@ -927,6 +944,59 @@ example : FromImage exImg exTree where
 set_option maxRecDepth 1000000 in
 set_option maxHeartbeats 4000000 in
 example : tar2sqfsTree {} (sqfs2tar exImg exTree) = some (exTree, devsOf exImg exTree) := by decide
+
+/-! #### `fixpoint_sqfs2tar_options`: a listing with a directory that is not selected, a sibling whose name extends the selected
+directory's name, and two names of one inode below the selected directory; `--subdir d --root-becomes r` -/
+abbrev exRaw : List RawEnt :=
+  [ ⟨ascii "d", 0o040755, 0, 0, 7, 1, none, [], [], 0, 0, false⟩,
+    ⟨ascii "d/a", 0o100644, 1000, 1000, 8, 2, none, [104, 105], [(ascii "user.k", [1])], 0, 0, false⟩,
+    ⟨ascii "d/b", 0o100644, 1000, 1000, 8, 2, none, [104, 105], [(ascii "user.k", [1])], 0, 0, false⟩,
+    ⟨ascii "d.y", 0o100600, 0, 0, 9, 3, none, [1], [], 0, 0, false⟩,
+    ⟨ascii "dx", 0o040700, 0, 0, 9, 4, none, [], [], 0, 0, false⟩,
+    ⟨ascii "dx/g", 0o100600, 0, 0, 9, 5, none, [2], [], 0, 0, false⟩ ]
+abbrev exOpts : S2tOpts := { subdirs := [ascii "d"], rootBecomes := some (ascii "r") }
+
+set_option maxRecDepth 100000 in
+example : (s2tEntries exOpts {} exRaw).map (fun e => (e.name, e.hardLink, e.target)) =
+    [(ascii "r", false, none), (ascii "r/a", false, none), (ascii "r/b", true, some (ascii "r/a"))] := by decide
+
+abbrev exTree2 : List TNode :=
+  [⟨[ascii "r"], 0o040755, 0, 0, 0, false, false, none⟩, ⟨[ascii "r", ascii "a"], 0o100644, 1000, 1000, 8, false, false, none⟩,
+   ⟨[ascii "r", ascii "b"], 0o120777, 1000, 1000, 8, false, true, some (ascii "r/a")⟩]
+
+set_option maxRecDepth 1000000 in
+example : FromImage (imgOfEnts (s2tEntries exOpts {} exRaw)) ((s2tEntries exOpts {} exRaw).map nodeOfEnt) := by
+  have he : (s2tEntries exOpts {} exRaw).map nodeOfEnt = exTree2 := by decide
+  rw [he]
+  exact
+  { nodes := by
+      intro n hn
+      simp only [List.mem_cons, List.not_mem_nil, or_false] at hn
+      rcases hn with rfl | rfl | rfl
+      all_goals exact
+        { pathNe := by decide, comps := by decide, kind := by decide, explicit := by decide, uid := by decide, gid := by decide,
+          mtime := by decide, lnkMode := by decide, hardMode := by decide,
+          lnkTarget := by first | (intro h; exact absurd h (by decide)) | (intro _; exact ⟨_, rfl, by decide, by decide⟩),
+          hardTarget := by first | (intro h; exact absurd h (by decide)) | (intro _; exact ⟨_, rfl, by decide⟩),
+          noTarget := by decide, dev := by decide, nameLen := by decide, contentLen := by decide, keyNul := by decide,
+          paxLen := by decide }
+    distinct := by
+      intro i j hi hj h
+      have hnd : (exTree2.map (·.path)).Nodup := by decide
+      exact (List.getElem_inj (xs := exTree2.map (·.path)) (i := i) (j := j) (h₀ := by simpa using hi) (h₁ := by simpa using hj) hnd).1
+        (by rw [List.getElem_map, List.getElem_map]; exact h)
+    parents := by
+      intro i hi k h0 hk
+      have hi' : i < 3 := hi
+      rcases i with _ | _ | _ | i
+      · simp [exTree2] at hk; omega
+      · have : k = 1 := by simp [exTree2] at hk; omega
+        subst this
+        exact ⟨0, by decide, by decide, rfl, rfl⟩
+      · have : k = 1 := by simp [exTree2] at hk; omega
+        subst this
+        exact ⟨0, by decide, by decide, rfl, rfl⟩
+      · omega }
 
 /-! #### foreign dialects: a POSIX ustar block with a `prefix` (a dialect the own writer never produces), a GNU 'L' record
 header, a PAX `path` record -/
